@@ -217,6 +217,7 @@ def main(prop, tier, runs=None, write=True):
             known_lines.append(f"KNOWN-FINDING: property={prop} {f['id']} {f['what']}")
 
     violations = []
+    irreproducible = []
     by_class = collections.OrderedDict()
     for case in lists["__raw__"]:
         by_class.setdefault((case["violation"]["kind"], case["violation"].get("op")), []).append(case)
@@ -228,7 +229,8 @@ def main(prop, tier, runs=None, write=True):
                 break       # enough minimised witnesses; never let reporting run into the command's timeout
             small, v, used = minimise(case, budget=600 if time.time() - t_min < MINIMISE_BUDGET_S / 2 else 150)
             if v is None:
-                raise pool.HarnessFailure(f"violation did not reproduce in the parent process: {case['origin']}")
+                irreproducible.append(f"did not reproduce in the parent process: {case['origin']}")
+                continue
             key = json.dumps([small["history"], small["config"]], sort_keys=True)
             if key in seen:
                 continue
@@ -237,9 +239,19 @@ def main(prop, tier, runs=None, write=True):
             path = evidence.save_replay(small, prop, tag)
             ok, out = replay_fresh(path)
             if not ok:
-                raise pool.HarnessFailure(f"minimised case {path} does not reproduce in a fresh interpreter:\n{out}")
+                raw = dict(case)
+                path = evidence.save_replay(raw, prop, tag + "-unminimised")
+                ok, out2 = replay_fresh(path)
+                if not ok:
+                    irreproducible.append(out2[-600:])
+                    continue
+                small, v = raw, raw.get("violation")
             violations.append((path, small, v))
 
+    if irreproducible and not violations:
+        raise pool.HarnessFailure("violations were observed but none of them reproduces in a fresh interpreter "
+                                  "(behaviour depends on process-wide state that a replay file cannot carry):\n"
+                                  + irreproducible[0])
     wall = time.time() - t0
     stats = {k[3:]: v for k, v in sorted(tot.items()) if k.startswith("st:")}
     cov = {
